@@ -299,7 +299,7 @@ pub fn check(c: &Case) -> CheckResult {
 
 fn check_with(c: &Case, timeout_ms: u64) -> CheckResult {
     let node = Node::start();
-    let cfg = NodeConfig::new(crate::util::lo(), node.shared.addr.port())
+    let cfg = NodeConfig::new(node.shared.addr.ip().to_string(), node.shared.addr.port())
         .and_then(|c| c.with_name("n"))
         .and_then(|c| c.with_timeout(Duration::from_millis(timeout_ms)))
         .map_err(|e| Fail::new("harness-config", e.to_string()))?;
@@ -497,7 +497,7 @@ pub fn check_broadcast(c: &Bcast) -> CheckResult {
     for (i, (n, mask)) in nodes.iter().zip(&c.nodes).enumerate() {
         let tags: Vec<&str> = (0..3).filter(|b| mask & (1 << b) != 0).map(|b| TAGS[b]).collect();
         cfgs.push(
-            NodeConfig::new(crate::util::lo(), n.shared.addr.port())
+            NodeConfig::new(n.shared.addr.ip().to_string(), n.shared.addr.port())
                 .and_then(|c| c.with_name(format!("n{i}")))
                 .and_then(|c| c.with_timeout(Duration::from_millis(2000)))
                 .map(|c| c.with_tags(tags))
